@@ -104,9 +104,9 @@ func revokedAt(w *world.World, id string, created int64) (time.Duration, bool) {
 
 func cacheKind(c world.PolicyCfg) string {
 	switch {
-	case c.SessionCache && c.SharedIK:
+	case c.SessionCache && c.SharedIKCache():
 		return "session+shared"
-	case c.SharedIK:
+	case c.SharedIKCache():
 		return "shared"
 	case !c.CacheIK && !c.CacheSK:
 		return "none"
